@@ -425,7 +425,10 @@ class ValidatorParser(ConfigFileParser):
         # Prepare for checking config file.
         # This code maps all supported config keys to their 
         # argparse action counterpart, it will allow more checks to be done down the road.
+        # The option that names a config file can't be set from a config file: the files to read are 
+        # determined from the command line before any of them is parsed.
         known_config_keys: Dict[str, argparse.Action] = {config_key: action for action in self.argument_parser._actions
+            if not getattr(action, 'is_config_file_arg', False)
             for config_key in self.argument_parser.get_possible_config_keys(action)}
 
         # Trigger warning
